@@ -16,6 +16,8 @@
 -/
 import Proofs.GoTieStreamW
 import Proofs.GoTieStreamNew
+import Proofs.GoTieWitnessA
+import Proofs.GoTieStreamRT
 namespace AgeModel
 namespace Tie.C12
 
@@ -69,6 +71,57 @@ theorem newWriter_tie {α δ : Type} (New : Bytes → Go.M (α × Option Go.Err)
 theorem newWriter_rel {α δ : Type} {S : Stream.DstSpec} (D : GoTie.DstEnv δ S) (a : α) (dst : δ) :
     GoTie.WRel D (⟨a, dst, 0, 0, List.replicate 65552 0, List.replicate 12 0, none⟩ : Extracted.stream_Writer α δ) (Stream.Writer.new (D.absD dst)) :=
   GoTie.newWriter_rel D a dst
+
+/-! The two translated ends composed. `GoTie.streamWrites` pushes a sequence of writes through the
+translated `Write`; `GoTie.streamReads` calls the translated `Read` with buffers of the given sizes
+and collects what each call copied until the first reported error. Driven call by call the
+translated reader yields what the model's `Reader.drain` yields, for EVERY list of sizes
+(`streamReads_tie`); and the property's round trip holds of the code (`code_stream_roundtrip`):
+whatever goes through the translated `Write`s and `Close` into an empty destination that takes every
+write comes back, followed by io.EOF, from the translated `Read` over the destination's bytes — for
+every input below 2^64 bytes, every split into writes, every sequence of positive read sizes long
+enough to reach the end. -/
+
+theorem streamReads_tie {α : Type} (A : AEAD) (k : Bytes) (E : GoTie.AeadEnv α A k) (sizes : List Nat)
+    (g : Extracted.stream_Reader α) (m : Stream.Reader) (h : GoTie.RRel g m) (hb : m.Bounded (2 ^ 88 - 1)) :
+    ∃ g' ge, GoTie.streamReads E g sizes = .ok (g', (m.drain A 65536 (2 ^ 88) k sizes).2.1, ge) ∧
+      GoTie.rdErrRel ge (m.drain A 65536 (2 ^ 88) k sizes).2.2 ∧ GoTie.RRel g' (m.drain A 65536 (2 ^ 88) k sizes).1 :=
+  GoTie.streamReads_tie A k E sizes g m h hb
+
+theorem code_stream_roundtrip {α δ : Type} (A : AEAD) (hA : A.Correct) (hN : A.NonceSep) (k : Bytes) (E : GoTie.AeadEnv α A k)
+    (D : GoTie.DstEnv δ Stream.DstSpec.perfect) (a : α) (dst : δ) (hd : (D.absD dst).acc = []) (ps : List Bytes)
+    (hlen : ps.flatten.length < 2 ^ 64) (sizes : List Nat) (hpos : ∀ s ∈ sizes, 0 < s)
+    (hlong : ps.flatten.length + (Stream.encrypt A 65536 k ps.flatten).length + 1 < sizes.length) :
+    ∃ w1 w2 r', GoTie.streamWrites E D ⟨a, dst, 0, 0, List.replicate 65552 0, List.replicate 12 0, none⟩ ps = .ok (none, w1) ∧
+      Extracted.stream_Writer_Close E.seal_ D.write w1 = .ok (none, w2) ∧
+      GoTie.streamReads E ⟨a, ⟨(D.absD w2.dst).acc, false⟩, 0, 0, List.replicate 65552 0, none, List.replicate 12 0⟩ sizes =
+        .ok (r', ps.flatten, Go.io_EOF) :=
+  GoTie.code_stream_roundtrip A hA hN k E D a dst hd ps hlen sizes hpos hlong
+
+/-- non-vacuity of the round trip: the toy AEAD with the 16-byte tag, the destination that is the model's own, any
+    key and any input below 2^64 bytes — the conclusion holds of one-byte reads -/
+theorem code_stream_roundtrip_instance (k : Bytes) (ps : List Bytes) (hlen : ps.flatten.length < 2 ^ 64) :
+    ∃ sizes w1 w2 r',
+      GoTie.streamWrites (GoTie.AeadEnv.witness k) (GoTie.DstEnv.witness Stream.DstSpec.perfect)
+          ⟨(), ⟨[], ()⟩, 0, 0, List.replicate 65552 0, List.replicate 12 0, none⟩ ps = .ok (none, w1) ∧
+      Extracted.stream_Writer_Close (GoTie.AeadEnv.witness k).seal_ (GoTie.DstEnv.witness Stream.DstSpec.perfect).write w1 = .ok (none, w2) ∧
+      GoTie.streamReads (GoTie.AeadEnv.witness k)
+          ⟨(), ⟨((GoTie.DstEnv.witness Stream.DstSpec.perfect).absD w2.dst).acc, false⟩, 0, 0, List.replicate 65552 0, none, List.replicate 12 0⟩ sizes =
+        .ok (r', ps.flatten, Go.io_EOF) := by
+  let n := ps.flatten.length + (Stream.encrypt AEAD.toy16 65536 k ps.flatten).length + 2
+  obtain ⟨w1, w2, r', h⟩ := code_stream_roundtrip AEAD.toy16 AEAD.toy16_correct AEAD.toy16_nonceSep k (GoTie.AeadEnv.witness k)
+    (GoTie.DstEnv.witness Stream.DstSpec.perfect) () ⟨[], ()⟩ rfl ps hlen (List.replicate n 1)
+    (by intro s hs; rw [List.mem_replicate] at hs; omega) (by rw [List.length_replicate]; omega)
+  exact ⟨_, w1, w2, r', h⟩
+
+/-- **the assumption structures this file's theorems take are satisfiable** (for a lawful toy primitive suite
+    with the 16-byte tag, where they mention primitives): none of the theorems above is vacuous. The instances are in
+    `Proofs/GoTieWitnessA.lean` / `GoTieWitnessB.lean`. -/
+theorem assumptions_satisfiable :
+    Prims.toy16.Correct ∧ Prims.toy16.aead.NonceSep ∧ Prims.toy16.aead.T = 16 ∧
+    (∀ k : Bytes, Nonempty (GoTie.AeadEnv Unit AEAD.toy16 k)) ∧
+    (∀ S : Stream.DstSpec, Nonempty (GoTie.DstEnv (Stream.Dst S) S)) :=
+  ⟨Prims.toy16_correct, AEAD.toy16_nonceSep, rfl, (fun k => ⟨GoTie.AeadEnv.witness k⟩), (fun S => ⟨GoTie.DstEnv.witness S⟩)⟩
 
 end Tie.C12
 end AgeModel
